@@ -120,6 +120,12 @@ func gameStart(r *rand.Rand, kind int) (ref.Pos, gen.Bias, int) {
 	case 9: // king beside an enemy home rook with the right still held; capture-happy play
 		return gen.TacticOK(r, 10), gen.Trader, 6 + r.Intn(40)
 	case 8: // castle, then shuffle: repetition whose first occurrence directly follows castling
+		if r.Intn(3) == 0 {
+			// ... or castling as the very move that completes the hundred plies
+			p := ref.MustFEN([]string{"r3k2r/8/8/8/8/8/8/R3K2R w KQkq - 0 1", "r3k2r/p6p/8/8/8/8/P6P/R3K2R b KQkq - 0 30", "r3k2r/pppq1ppp/2n2n2/8/8/2N2N2/PPPQ1PPP/R3K2R w KQkq - 0 12"}[r.Intn(3)])
+			p.Half = 96 + r.Intn(4)
+			return p, gen.Bias{Capture: 0.01, Check: 1, Promo: 1, Castle: 60, EP: 1, Quiet: 1, PawnMove: 0.01}, 4 + r.Intn(12)
+		}
 		return ref.MustFEN([]string{"r3k2r/8/8/8/8/8/8/R3K2R w KQkq - 0 1", "r3k2r/p6p/8/8/8/8/P6P/R3K2R w KQkq - 4 20", "r3k2r/pppq1ppp/2n2n2/8/8/2N2N2/PPPQ1PPP/R3K2R b KQkq - 6 12"}[r.Intn(3)]), gen.CastleShuffle, 30 + r.Intn(60)
 	case 0: // repetitions from the initial position (incl. of the start position itself)
 		return starts[0], gen.Shuffly, 60 + r.Intn(200)
@@ -169,7 +175,7 @@ func init() {
 				"pushes": 50000, "ev_threefold": 200, "ev_fivefold": 20, "ev_threefold_of_start": 5, "ev_rep_first_occ_after_irreversible": 20,
 				"ev_rep_first_occ_after_castling": 1, "ev_rep_first_occ_is_start": 5,
 				"ev_clock100_first": 20, "ev_clock100_first_from_fen_clock": 10, "ev_insufficient_first": 20, "near_miss_material": 20,
-				"adjudicated_mate": 3, "adjudicated_stalemate": 1, "forks": 50, "ev_repetition_first_after_fork": 5, "query_rounds": 20000, "ev_insufficient_after_ep": 5,
+				"adjudicated_mate": 3, "adjudicated_stalemate": 1, "forks": 50, "ev_repetition_first_after_fork": 5, "query_rounds": 20000, "ev_insufficient_after_ep": 5, "ev_clock100_by_castling": 5,
 			}
 		},
 		Run: func(c *fw.Ctx, cs fw.Case) {
